@@ -39,7 +39,7 @@ def gen(seed):
     blackhole = rng.choice(brokers) if rng.random() < 0.2 else None
     reqs = []
     for i in range(rng.randint(2, 8)):
-        kind = rng.choice(("fetch", "fetch", "offsets", "produce", "heartbeat", "join"))
+        kind = rng.choice(("fetch", "fetch", "offsets", "produce", "produce0", "heartbeat", "join"))
         b = rng.choice(brokers)
         r = rng.random()
         if r < 0.35:
@@ -68,10 +68,12 @@ def run_once(sc, ghost):
     late = set()
     for r in sc["reqs"]:
         Teff = max(T, 35.0) if r["kind"] == "join" else T
-        api = {"fetch": "Fetch", "offsets": "ListOffsets", "produce": "Produce", "heartbeat": "Heartbeat",
-               "join": "JoinGroup"}[r["kind"]]
-        match = dict(api=api, topic="q%d" % r["i"]) if r["kind"] in ("fetch", "offsets", "produce") else \
+        api = {"fetch": "Fetch", "offsets": "ListOffsets", "produce": "Produce", "produce0": "Produce",
+               "heartbeat": "Heartbeat", "join": "JoinGroup"}[r["kind"]]
+        match = dict(api=api, topic="q%d" % r["i"]) if r["kind"] in ("fetch", "offsets", "produce", "produce0") else \
             dict(api=api, group="g%d" % r["i"])
+        if r["kind"] == "produce0":
+            continue  # no reply is ever expected: the request resolves when written
         if r["beh"][0] == "delay":
             d = r["beh"][1] * Teff
             cl.faults.add(dict(match, action=dict(kind="ok", delay=d)))
@@ -112,7 +114,7 @@ def run_once(sc, ghost):
         def spy(broker, correlationId, request, expectResponse=True, min_timeout=None):
             m = dict(t0=w.clock.seconds(), node=broker.node_id, corr=correlationId,
                      T=max(client.timeout, min_timeout) if min_timeout is not None else client.timeout, fires=[],
-                     connected=broker.connected())
+                     connected=broker.connected(), expect=expectResponse)
             rec["mrtb"].append(m)
             d = orig(client, broker, correlationId, request, expectResponse, min_timeout)
 
@@ -143,6 +145,8 @@ def run_once(sc, ghost):
                     d = client.send_offset_request([C.OffsetRequest(topic, 0, -1, 1)])
                 elif r["kind"] == "produce":
                     d = client.send_produce_request([C.ProduceRequest(topic, 0, [C.Message(0, 0, None, b"x")])])
+                elif r["kind"] == "produce0":
+                    d = client.send_produce_request([C.ProduceRequest(topic, 0, [C.Message(0, 0, None, b"x")])], acks=0)
                 elif r["kind"] == "heartbeat":
                     d = client._send_request_to_coordinator(group, C._HeartbeatRequest(group, 1, "m"),
                                                             encoder_fn=KafkaCodec.encode_heartbeat_request,
@@ -237,6 +241,14 @@ def run(spec):
         res.ob("resolves_within_timeout")
         if val == "CancelledError" and cancelled_calls:
             res.ev("cancelled_by_caller")
+            continue
+        if not m["expect"]:
+            # fire-and-forget: resolves (None) once written, or times out if no connection came up in time
+            if not ok and (val != "RequestTimedOutError" or abs(t - deadline) > EPS):
+                res.violate("bound/no-reply-request-failed-with-%s" % val, "acks=0 request failed with %s at +%.6f"
+                            % (val, t - m["t0"]))
+            res.hit("no_reply_requests")
+            res.ob("no_reply_request_resolves")
             continue
         if td is not None and td < deadline - EPS:
             if not ok or abs(t - td) > EPS:
